@@ -10,10 +10,11 @@ MODULE = "Xandikos.Theorems.C17"
 PREFIXES = ("C17:",)
 
 CAL2 = "/user/calendars/second"
+CAL3 = "/user/calendars/a"          # with the route prefix /a/b/, "/a/b" occurs again inside the path of a/b.ics
 # member names: URL-significant characters, a name that is a prefix of another up to '#'/'?',
 # a card inside a calendar collection, no extension
 CAL_NAMES = ["a.ics", "a#b.ics", "a", "q?x.ics", "q", "50%.ics", "sp ace.ics", "zoë.ics", "%41.ics", "A.ics",
-             "c.vcf", "semi;x.ics", "plus+.ics"]
+             "c.vcf", "semi;x.ics", "plus+.ics", "david.ics", "dav", "x=y&z.ics", "(p)!.ics"]
 BOOK_NAMES = ["k.vcf", "k#1.vcf", "e.ics", "ü.vcf"]
 
 
@@ -22,19 +23,25 @@ def gen_template(rng, toks, length):
     rng.shuffle(uids)
     icals = [toks.tok(gen_ical(rng, uid=uids[i % len(uids)] + str(i))) for i in range(10)]
     cards = [toks.tok(gen_vcard(rng)) for _ in range(4)]
-    cal_paths = [CAL + "/" + n for n in CAL_NAMES] + [CAL2 + "/" + n for n in ("a.ics", "z.ics")]
+    cal_paths = [CAL + "/" + n for n in CAL_NAMES] + [CAL2 + "/" + n for n in ("a.ics", "z.ics")] + \
+        [CAL3 + "/" + n for n in ("b.ics", "b")]
     book_paths = [BOOK + "/" + n for n in BOOK_NAMES]
     paths = cal_paths + book_paths
-    ops = [("MKCALENDAR", CAL2)]
+    ops = [("MKCALENDAR", CAL2), ("MKCALENDAR", CAL3)]
 
     def sel():
         r = rng.random()
         p = rng.choice(paths)
+        if r < 0.05:
+            return ("echo",)
         if r < 0.34:
             return ("member", p)
-        if r < 0.42:
+        if r < 0.38:
             return ("variant", p)
-        if r < 0.50:
+        if r < 0.44:
+            return ("rawdelims", rng.choice([CAL + "/" + n for n in ("semi;x.ics", "plus+.ics", "x=y&z.ics", "(p)!.ics")]
+                                            + [CAL + "/a.ics;v2", CAL + "/semi;"]))
+        if r < 0.51:
             return ("abs", p, rng.choice(["", ":80", ":8080"]))
         if r < 0.54:
             return ("otherhost", p)
@@ -67,7 +74,7 @@ def gen_template(rng, toks, length):
         ops.append(("PUT", p, ct, tok, "none", "none"))
 
     for p in paths:
-        if rng.random() < 0.7:
+        if rng.random() < 0.7 or p in (CAL + "/david.ics", CAL3 + "/b.ics", CAL + "/a.ics", CAL + "/semi;x.ics"):
             put(p)
     for _ in range(length):
         r = rng.random()
